@@ -404,14 +404,15 @@ def family_a(ctx, focus):
     budgets = focus.get("budgets_q" if q else "budgets_t", (1, 2, 2) if q else (2, 2, 3))
     jobs = []
     for (rq, rs) in STREAM_KINDS:
-        jobs.append(dict(module="MCInprocStream", consts=inproc_stream_consts(rq, rs, *budgets), invariants=invs,
-                         name="L1-inproc-%s" % bgen.kind_of(rq, rs), view="ViewNoEv",
+        # (the thorough budget with one header operation: 26-33 M distinct states, about 3-4 min per kind)
+        jobs.append(dict(module="MCInprocStream", consts=inproc_stream_consts(rq, rs, *budgets, hdr=2 if q else 1),
+                         invariants=invs, name="L1-inproc-%s" % bgen.kind_of(rq, rs), view="ViewNoEv",
                          kind=bgen.kind_of(rq, rs), tr="inproc", model="InprocStream"))
     # 1b. the same for the L1 model of the HTTP stream (client stream with its
     #     reader goroutine, server stream, net/http environment)
     one, two = ('{"cs"}', '{"cancel"}'), ('{"cs", "cs2"}', '{"cancel", "deadline"}')
     hcfgs = focus.get("hcfgs_q" if q else "hcfgs_t",
-                      [((1, 2, 2), one)] if q else [((1, 2, 2), two), ((1, 3, 3), one), ((2, 2, 2), one)])
+                      [((1, 2, 2), one)] if q else [((1, 2, 2), two), ((1, 3, 3), one)])
     for hb, (closers, kinds) in hcfgs:
         for (rq, rs) in STREAM_KINDS:
             jobs.append(dict(module="MCHttpStream", consts=http_stream_consts(rq, rs, *hb, closers=closers, kinds=kinds),
